@@ -24,6 +24,7 @@ import (
 	"strings"
 
 	"github.com/dolthub/go-mysql-server/sql"
+	"github.com/dolthub/go-mysql-server/sql/hash"
 	"github.com/dolthub/go-mysql-server/sql/types"
 	"github.com/dolthub/vitess/go/sqltypes"
 
@@ -469,6 +470,8 @@ func checkGroup(r *core.Run, t *tally, c *coll, strs []string, where string) ([]
 	m := make([][]int, n)
 	ws := make([]string, n)
 	hs := make([]uint64, n)
+	hs2 := make([]uint64, n)
+	sqlCtx := sql.NewEmptyContext()
 	for i, s := range strs {
 		w, err, p := c.ws(s)
 		if err != nil || p != nil {
@@ -482,6 +485,14 @@ func checkGroup(r *core.Run, t *tally, c *coll, strs []string, where string) ([]
 			return nil, false
 		}
 		hs[i] = h
+		// the engine-level entry point used by hash joins, IN, DISTINCT: sql/hash.HashOfSimple
+		var h2 uint64
+		var herr error
+		if p := g2lib.Guard(func() { h2, _, herr = hash.HashOfSimple(sqlCtx, s, c.t) }); p != nil || herr != nil {
+			r.Violation("hashofsimple-fails:"+c.name, map[string]any{"collation": c.name, "s": s, "s_hex": hx(s), "error": fmt.Sprint(herr), "panic": p, "where": where})
+			return nil, false
+		}
+		hs2[i] = h2
 	}
 	for i := range strs {
 		m[i] = make([]int, n)
@@ -518,6 +529,11 @@ func checkGroup(r *core.Run, t *tally, c *coll, strs []string, where string) ([]
 				ok = false
 			case m[i][j] == 0 && hs[i] != hs[j]:
 				r.Violation("compare-equal-but-hashes-differ:"+c.name, wit())
+				ok = false
+			case m[i][j] == 0 && hs2[i] != hs2[j]:
+				w := wit()
+				w["hashofsimple_a"], w["hashofsimple_b"] = hs2[i], hs2[j]
+				r.Violation("compare-equal-but-hashofsimple-differs:"+c.name, w)
 				ok = false
 			case m[i][j] != 0 && hs[i] == hs[j]:
 				t.hit(c.name, "groups:hash-collision(not judged)")
